@@ -167,6 +167,22 @@ def run(ctx):
         diff = sorted(set(k_ for k_ in set(psq["changed"]) | set(want) if psq["changed"].get(k_) != want.get(k_)))
         report("Creates run one after the other in one process, each from its own current directory with relative paths, do not give what each gives by itself: results %s, differing files %s" % (psq["res"], diff[:6]),
                {"lines": [sq_line], "mode": "real", "impl": sq_res[:1500], "expected_files": sorted(want), "class": {"kind": "sequence"}})
+    # ---------------- an input that is one of the set's own files, in EVERY spelling: relative to the current directory, with
+    # dot-dot, absolute, mixed with the index path's spelling - refused alike, inputs untouched ----------------
+    own_in = {SETDIR + "/n1.dat": L.gen_content(rng, "random", 23), SETDIR + "/own.extra.par2": b"a file of mine named like a recovery file"}
+    for k_, (cwd_, par_, files_) in enumerate([(SETDIR, "own.par2", ["n1.dat", "own.extra.par2"]),
+                                                (SETDIR, SETDIR + "/own.par2", ["n1.dat", "own.extra.par2"]),
+                                                (SETDIR, "own.par2", ["n1.dat", SETDIR + "/own.extra.par2"]),
+                                                ("/top", "set/own.par2", ["set/n1.dat", "../top/set/own.extra.par2"]),
+                                                ("/elsewhere", SETDIR + "/own.par2", [SETDIR + "/n1.dat", "../top/set/own.extra.par2"])]):
+        toks_ = ["p2", "createseq", "real", "1", L.hx(cwd_), L.hx(par_), "4", "2", "1", str(len(files_))] + [L.hx(f_) for f_ in files_]
+        line_ = " ".join(toks_ + L.fs_tokens(own_in, dirs=["/elsewhere", "/top", SETDIR]))
+        res_ = L.parse_result(ctx.run_lines(vh, [line_])[0])
+        ctx.count("own-file-spelling|%d" % k_, True)
+        dist["own_file_spellings"] = dist.get("own_file_spellings", 0) + 1
+        if res_["res"] == "ok" or res_["changed"]:
+            report("Create with one of the set's own recovery-file names among the inputs (cwd %s, index %r, inputs %s) returned %s and changed %s: the same input set must be refused in every spelling" %
+                   (cwd_, par_, files_, res_["res"], sorted(res_["changed"])), {"lines": [line_], "mode": "real", "class": {"kind": "own-file-spelling"}})
     # ---------------- CLI level (real directories): current directory x spelling ----------------
     inputs = {SETDIR + "/n1.dat": L.gen_content(rng, "random", 11), SETDIR + "/sub/n2.dat": L.gen_content(rng, "random", 6), SETDIR + "/n3": L.gen_content(rng, "lowent", 13)}
     fpaths = list(inputs)
